@@ -43,9 +43,31 @@ func r11TagFirst(c *RuleCtx) {
 		}
 		return ""
 	}
+	// a helper that only the exempt functions call is part of them (`read` split into `read` + `initGeneral`)
+	var partOfExempt func(fn *ssa.Function, depth int) bool
+	partOfExempt = func(fn *ssa.Function, depth int) bool {
+		if exempt(fn) != "" {
+			return true
+		}
+		if depth > 3 || fn.Object() == nil || fn.Object().Exported() {
+			return false
+		}
+		n := 0
+		for _, cs := range c.p.callersOf(fn) {
+			par := rootParent(cs.Parent())
+			if !c.p.InZap(par) {
+				continue
+			}
+			n++
+			if par == fn || !partOfExempt(par, depth+1) {
+				return false
+			}
+		}
+		return n > 0
+	}
 	nSites, nFns := 0, 0
 	for _, fn := range c.p.ZapFuncs {
-		if exempt(fn) != "" {
+		if partOfExempt(fn, 0) {
 			continue
 		}
 		// content uses of a load of <list>.postings
@@ -284,44 +306,85 @@ func r8CancelIdentity(c *RuleCtx) {
 func r29FlagPerPosting(c *RuleCtx) {
 	props := []string{"C01", "C06"}
 	n := 0
+	perFnCount := map[*ssa.Function]int{}
+	loopsOf := map[*ssa.Function][]*natLoop{}
+	// judge: the values `args` (frequency, flag) that reach encodeFreqHasLocs through the call at `at`
+	var judge func(at ssa.CallInstruction, args []ssa.Value, depth int)
+	judge = func(at ssa.CallInstruction, args []ssa.Value, depth int) {
+		fn := at.Parent()
+		loops, ok := loopsOf[fn]
+		if !ok {
+			loops = naturalLoops(fn)
+			loopsOf[fn] = loops
+		}
+		// innermost loop containing the call
+		var loop *natLoop
+		for _, l := range loops {
+			if l.blocks[at.Block()] && (loop == nil || len(l.blocks) < len(loop.blocks)) {
+				loop = l
+			}
+		}
+		if loop == nil {
+			// an encoding helper (`(*chunkedIntCoder).addFreqNorm(docNum, freq, hasLocs, norm)`): the values
+			// are its parameters; they are judged where the helper is called
+			if depth >= 2 {
+				return
+			}
+			idx := map[int]bool{}
+			for _, a := range args {
+				if _, isConst := a.(*ssa.Const); isConst {
+					continue
+				}
+				p, isParam := a.(*ssa.Parameter)
+				if !isParam {
+					return // computed in a function without a loop: nothing to say
+				}
+				for i, pp := range fn.Params {
+					if pp == p {
+						idx[i] = true
+					}
+				}
+			}
+			for _, cs := range c.p.callersOf(fn) {
+				if !c.p.InZap(cs.Parent()) {
+					continue
+				}
+				var actual []ssa.Value
+				for i := range fn.Params {
+					if idx[i] && i < len(cs.Common().Args) {
+						actual = append(actual, cs.Common().Args[i])
+					}
+				}
+				judge(cs, actual, depth+1)
+			}
+			return
+		}
+		n++
+		perFnCount[fn]++
+		var bad []string
+		for ai, a := range args {
+			if _, isConst := a.(*ssa.Const); isConst {
+				continue
+			}
+			if !definedInLoop(a, loop, 0) {
+				bad = append(bad, fmt.Sprintf("argument %d (%s) is computed outside the loop over the postings", ai, a.Name()))
+			}
+		}
+		props2 := []string{"C06"}
+		if strings.Contains(fn.Name(), "writeDicts") {
+			props2 = []string{"C01"}
+		}
+		c.add(statusOf(len(bad) == 0), fmt.Sprintf("flag-per-posting/%s#%d", funcShortName(fn), perFnCount[fn]), c.pos(at),
+			"the frequency and the has-locations flag encoded for a posting are computed from that posting (inside the loop over the postings)",
+			"a loop-invariant value is encoded with every posting of the term: postings that differ in it (a document without locations among documents with locations) are written with the wrong flag and the reader mis-steps through the location stream", props2, bad)
+	}
 	for _, fn := range c.p.ZapFuncs {
-		loops := naturalLoops(fn)
-		perFn := 0
 		for _, cs := range callSites(fn) {
 			f := staticCallee(cs)
 			if f == nil || !namedFn(f, "encodeFreqHasLocs") {
 				continue
 			}
-			// innermost loop containing the call
-			var loop *natLoop
-			for _, l := range loops {
-				if l.blocks[cs.Block()] && (loop == nil || len(l.blocks) < len(loop.blocks)) {
-					loop = l
-				}
-			}
-			if loop == nil {
-				continue
-			}
-			n++
-			perFn++
-			var bad []string
-			for ai, a := range cs.Common().Args {
-				if _, isConst := a.(*ssa.Const); isConst {
-					continue
-				}
-				if !definedInLoop(a, loop, 0) {
-					bad = append(bad, fmt.Sprintf("argument %d (%s) is computed outside the loop over the postings", ai, a.Name()))
-				}
-			}
-			props2 := props
-			if strings.Contains(fn.Name(), "writeDicts") {
-				props2 = []string{"C01"}
-			} else {
-				props2 = []string{"C06"}
-			}
-			c.add(statusOf(len(bad) == 0), fmt.Sprintf("flag-per-posting/%s#%d", funcShortName(fn), perFn), c.pos(cs),
-				"the frequency and the has-locations flag encoded for a posting are computed from that posting (inside the loop over the postings)",
-				"a loop-invariant value is encoded with every posting of the term: postings that differ in it (a document without locations among documents with locations) are written with the wrong flag and the reader mis-steps through the location stream", props2, bad)
+			judge(cs, cs.Common().Args, 0)
 		}
 	}
 	c.add(statusOf(n >= half(3)), "flag-per-posting/sites", "-", "calls of encodeFreqHasLocs inside postings loops are found (pinned tree: 2 in writeDicts, 1 in mergeTermFreqNormLocs)", fmt.Sprintf("found %d", n), props, nil)
@@ -558,7 +621,7 @@ func r27StoredBlock(c *RuleCtx) {
 		okc := true
 		deps := transitiveControlDeps(enc[0].Parent())
 		for _, d := range deps[enc[0].Block()] {
-			if condIsLenTest(branchCond(d.Branch)) {
+			if condIsLenTest(branchCond(d.Branch)) && decidesWhetherReached(d.Branch, enc[0].Block()) {
 				okc = false
 				why = append(why, "snappy.Encode is skipped depending on a length test ("+c.p.instrPos(d.Branch.Instrs[len(d.Branch.Instrs)-1])+")")
 			}
@@ -583,7 +646,7 @@ func r27StoredBlock(c *RuleCtx) {
 			deps := transitiveControlDeps(dec[0].Parent())
 			for _, d := range deps[dec[0].Block()] {
 				cond := branchCond(d.Branch)
-				if condIsLenTest(cond) {
+				if condIsLenTest(cond) && decidesWhetherReached(d.Branch, dec[0].Block()) {
 					okc = false
 					why = "snappy.Decode is skipped depending on the length of the block: an empty field list is stored as a one-byte encoding, not as nothing"
 				}
@@ -591,6 +654,33 @@ func r27StoredBlock(c *RuleCtx) {
 		}
 		c.add(statusOf(okc), "stored-block/reader", c.fpos(fn), "the reader always decodes the stored block of a document with snappy.Decode", why, props, nil)
 	}
+}
+
+// decidesWhetherReached: after the two-way branch at the end of br, the function can go on to report
+// success (a return whose error is not provably non-nil) without passing through target — and without
+// coming back to br (another iteration decides anew). A length test whose arms both go on to target, or
+// whose only other way out is an error return, does not skip target.
+func decidesWhetherReached(br *ssa.BasicBlock, target *ssa.BasicBlock) bool {
+	if len(br.Succs) != 2 || !reachesBlock(br, target) {
+		return false
+	}
+	seen := map[*ssa.BasicBlock]bool{br: true, target: true}
+	work := append([]*ssa.BasicBlock(nil), br.Succs...)
+	for len(work) > 0 {
+		x := work[len(work)-1]
+		work = work[:len(work)-1]
+		if seen[x] {
+			continue
+		}
+		seen[x] = true
+		if ret, ok := x.Instrs[len(x.Instrs)-1].(*ssa.Return); ok {
+			if _, ns := errorOfReturn(ret); ns != nonNil {
+				return true
+			}
+		}
+		work = append(work, x.Succs...)
+	}
+	return false
 }
 
 func condIsLenTest(cond ssa.Value) bool {
